@@ -202,11 +202,13 @@ func (n *Node) Obs(tag string) {
 			replayRoot, replayOK = r, true
 		}
 	}
+	var prevData *types.Data
 	for h := w.Genesis.InitialHeight; h <= top; h++ {
 		sh, d, e := st.GetBlockData(ctx, h)
 		if e != nil {
 			missing = append(missing, int(h))
 			replayOK = false
+			prevData = nil
 			continue
 		}
 		var ssig []byte
@@ -214,6 +216,16 @@ func (n *Node) Obs(tag string) {
 			ssig = *sg
 		}
 		br := n.BlockRec(h, sh, d, ssig)
+		// the data's metadata links to the data of the block before it (nothing for the first block)
+		br["ldh"] = true
+		if d.Metadata != nil {
+			if prevData != nil {
+				br["ldh"] = bytes.Equal(d.Metadata.LastDataHash, prevData.Hash())
+			} else {
+				br["ldh"] = len(d.Metadata.LastDataHash) == 0 || h > w.Genesis.InitialHeight
+			}
+		}
+		prevData = d
 		// the header's state root is the root a fresh execution layer reports after replaying all earlier blocks
 		br["replay"] = "none"
 		if replay != nil && replayOK {
